@@ -6,7 +6,7 @@ generated program go through LOG, so that an observation is (outcome, LOG, post-
 import functools
 import sys
 
-__all__ = ['deco', 'LOG', 't', 'CM', 'O', 'E1', 'E2', 'E3', 'tryin', 'fin', 'ext1', 'ext2', 'partial', 'nc', 'PROP']
+__all__ = ['SINK', 'deco', 'LOG', 't', 'CM', 'O', 'E1', 'E2', 'E3', 'tryin', 'fin', 'ext1', 'ext2', 'partial', 'nc', 'PROP']
 
 LOG = []
 PROP = ('PROPAGATING',)
@@ -36,6 +36,19 @@ def ext2(x, y=3, *, k=0):
 
 
 partial = functools.partial
+
+
+class _Sink(object):
+  """File-like target for print(..., file=SINK): what is printed becomes part of the effect log."""
+
+  def write(self, s):
+    LOG.append(('print', s))
+
+  def flush(self):
+    pass
+
+
+SINK = _Sink()
 
 
 def deco(k):
